@@ -31,23 +31,19 @@ LIMIT = 10  # seconds per library call (only there to stop a looping mutant)
 NONE = {"k": "none"}
 ENONE = upj.E("none")
 
-MC_CFG = """SPECIFICATION MCSpec
-CONSTANTS MaxOps = %(maxops)d
- MCValNames = %(vals)s
-INVARIANT Stored
-INVARIANT RejectJustified
-INVARIANT AcceptSafe
+INVS = """INVARIANT Stored
+INVARIANT %(p)sRejectJustified
+INVARIANT %(p)sAcceptSafe
 PROPERTY RejectUnchanged
 """
+H_CFG = "SPECIFICATION HSpec\nCONSTANTS MaxOps = 0\n MCValNames = {}\n Depth = %(depth)d\nINVARIANT HEnabled\n" + INVS % {"p": "H"}
+MC_CFG = "SPECIFICATION MCSpec\nCONSTANTS MaxOps = %(maxops)d\n MCValNames = %(vals)s\n Depth = 1\n" + INVS % {"p": ""}
 TRACE_CFG = """SPECIFICATION TraceSpec
 INVARIANT Judged
 """
 
-# values of the T1 menu (names understood by MCModelStore!MCVals)
-MC_VALS = {
-    "quick": ["true", "2/1", "9/1", "7/2", "oT", "oT1", "g_int010", "g_T", "p_bool"],
-    "thorough": ["true", "2/1", "5/1", "9/1", "7/2", "oT", "oT1", "oU", "g_int010", "g_int03", "g_real", "g_T", "g_bool", "p_bool", "p_T1"],
-}
+# values of the free-interleaving T1 menu (names understood by MCModelStore!MCVals)
+MC_VALS = ["true", "2/1", "9/1", "7/2", "oT", "oT1", "g_int010", "g_T", "p_bool"]
 
 
 def tla_set(xs):
@@ -220,7 +216,7 @@ class World:
         return out
 
 
-def replay(ctx, decl, hist, hid):
+def replay_history(ctx, decl, hist, hid):
     """Run one history on the real library; returns the trace record (or None after a time-out)."""
     try:
         with time_limit(LIMIT):
@@ -257,7 +253,7 @@ def call_label(s):
     return s["op"] + (":%s:%s" % (s["c"], s["kind"]) if s["op"] == "add_effect" else "")
 
 
-def judge(ctx, label, traces, expect_fail=None):
+def judge(ctx, label, traces, expect_fail=None, decl=None):
     """TLC judges the traces; FAIL lines become violations (or are returned when expect_fail)."""
     d = ctx.sub("judge-" + label)
     path = os.path.join(d, "traces.ndjson")
@@ -291,7 +287,7 @@ def judge(ctx, label, traces, expect_fail=None):
             "%s|%s|%s" % (clause, call_label(st["s"]), feat),
             "clause %s fails at call %d (%s, target %s, value %s): %s"
             % (clause, step, call_label(st["s"]), t["tt"], describe(st["s"]["e"]), "returned" if st["ok"] else "raised " + st["exc"]),
-            {"history": [x["s"] for x in t["steps"]], "step": step, "clause": clause, "feature": feat, "recorded": t["steps"][step - 1], "case": [t["call"], t["tt"]]},
+            {"history": [x["s"] for x in t["steps"]], "step": step, "clause": clause, "feature": feat, "recorded": t["steps"][step - 1], "case": [t["call"], t["tt"], t["j"]], "decl": decl},
         )
     return res, fails, verdicts
 
@@ -303,10 +299,10 @@ def describe(e):
     return "%s %s" % (e["op"], e["name"])
 
 
-def enumerate_cases(ctx):
+def enumerate_cases(ctx, depth):
     d = ctx.sub("enum")
     out, outd = os.path.join(d, "hist.ndjson"), os.path.join(d, "decl.ndjson")
-    res = tlc.run_tlc("ModelStoreEnum", "INIT EInit\nNEXT ENext\n", d, env={"OUT": out, "OUT_DECL": outd}, workers=1, timeout=3000)
+    res = tlc.run_tlc("ModelStoreEnum", "INIT EInit\nNEXT ENext\nCONSTANT Depth = %d\n" % depth, d, env={"OUT": out, "OUT_DECL": outd}, workers=1, timeout=3000)
     if res.error:
         raise MachineryError(res.error)
     hist = tlc.read_ndjson(out)
@@ -315,7 +311,7 @@ def enumerate_cases(ctx):
     if not em or em[0][1] != len(hist):
         raise MachineryError("enumerator announced %r histories, file has %d" % (em, len(hist)))
     # deterministic order independent of TLC's set order
-    hist.sort(key=lambda h: (h["call"], h["tt"], tlc.json.dumps(h["steps"][h["j"] - 1], sort_keys=True)))
+    hist.sort(key=lambda h: (h["call"], h["tt"], tlc.json.dumps(h["steps"][h["j"] - 1], sort_keys=True), tlc.json.dumps(h["steps"], sort_keys=True)))
     return decl, hist, res
 
 
@@ -323,36 +319,35 @@ def run(ctx):
     q = ctx.quick
     # ---- T1: design check -------------------------------------------------------------
     d = ctx.sub("t1")
-    cfg = {"maxops": 2, "vals": tla_set(MC_VALS["quick" if q else "thorough"])}
-    res = tlc.run_tlc("MCModelStore", MC_CFG % cfg, d, workers=WORKERS, timeout=3000, coverage=True)
-    if res.error:
-        raise MachineryError(res.error)
-    ctx.add_tlc("T1 %r" % (cfg,), res)
-    if res.violated:
-        ctx.violation(
-            "T1|" + res.violated,
-            "the call layer of ModelStore violates %s (design-level counterexample)" % res.violated,
-            {"config": cfg, "trace": [s["vars"] for s in res.trace]},
-        )
-    got = {(p[1], p[2]) for p in res.printed if p and p[0] == "VR"}
-    need = {(op, v) for op in ("add_fluent", "set_init", "instance") for v in ("yes", "no")} | {("add_effect", v) for v in ("yes", "no", "unspec")} | {("instance", "unspec")}
-    if not need <= got:
-        raise MachineryError("vacuous T1 menu: verdicts never reached: %r" % sorted(need - got))
-    for act in ("Accepts", "Rejects"):
-        if act in res.coverage and res.coverage[act][1] == 0:
-            raise MachineryError("T1: action %s never taken" % act)
+    depth = 1 if q else 2
+    runs = [("T1 histories of the case space", "HNext", H_CFG % {"depth": depth})]
+    if not q:
+        runs.append(("T1 free interleavings", "MCNext", MC_CFG % {"maxops": 2, "vals": tla_set(MC_VALS)}))
+    for label, nxt, cfg in runs:
+        res = tlc.run_tlc("MCModelStore", cfg, d, workers=WORKERS, timeout=3000, coverage=True)
+        if res.error:
+            raise MachineryError(res.error)
+        ctx.add_tlc(label, res)
+        if res.violated:
+            ctx.violation(
+                "T1|" + res.violated,
+                "the call layer of ModelStore violates %s (design-level counterexample)" % res.violated,
+                {"config": cfg, "trace": [s["vars"] for s in res.trace]},
+            )
+        if res.coverage.get(nxt, (0, 0))[1] == 0:
+            raise MachineryError("T1: action %s never taken" % nxt)
     # ---- G1: TLC enumerates the case space --------------------------------------------
-    decl, hist, eres = enumerate_cases(ctx)
+    decl, hist, eres = enumerate_cases(ctx, depth)
     ctx.add_tlc("enum", eres)
     # ---- T2: replay on the real library -----------------------------------------------
     traces = []
     for i, h in enumerate(hist):
-        t = replay(ctx, decl, h, i)
+        t = replay_history(ctx, decl, h, i)
         if t is not None:
             traces.append(t)
     ctx.cov["evaluations"] += sum(len(t["steps"]) for t in traces)
     # ---- T3: TLC judges ---------------------------------------------------------------
-    res, fails, verdicts = judge(ctx, "enum", traces)
+    res, fails, verdicts = judge(ctx, "enum", traces, decl=decl)
     # coverage / vacuity: verdict of the case's call of every history, per call
     bycall = {}
     unspec = 0
@@ -387,12 +382,13 @@ def run(ctx):
     # ---- binding self-test: a corrupted record must be rejected by the judge -----------
     selfcheck(ctx, traces, verdicts)
     ctx.cov["rule"] = (
-        "T1: exhaustive BFS of ModelStore's call layer (histories of <= %d calls over 7 target types x %d values x all "
-        "storing calls) against StoreOK / RejectJustified / AcceptSafe / RejectUnchanged. G1: TLC emits the full cross "
+        "T1: ModelStore's call layer run by TLC over every history of the case space (both branches where unspecified)%s "
+        "against StoreOK / RejectJustified / AcceptSafe / RejectUnchanged. G1: TLC emits the full cross "
         "product 13 storing calls x 7 target types {bool, int[0,3], real, real[0,5], T, T1 < T, U} x 24 values {true, 2, 5, "
         "7/2, 9, objects of T / T1 / U, a fluent expression of each of 8 types, an action parameter of each of 8 types} = %d "
         "histories of 2-6 calls, each replayed on fresh objects and judged call by call by ModelStoreTrace. A history counts "
-        "as non-trivial when the verdict of its case's call is not plain 'yes'." % (cfg["maxops"], len(MC_VALS["quick" if q else "thorough"]), len(hist))
+        "as non-trivial when the verdict of its case's call is not plain 'yes'."
+        % ("" if q else " and over all interleavings of <= 2 calls drawn from 7 target types x %d values x all storing calls" % len(MC_VALS), len(hist))
     )
     ctx.assumptions += [
         "TLC and the CommunityModules Json reader are trusted",
@@ -426,14 +422,20 @@ def selfcheck(ctx, traces, verdicts):
     st = t["steps"][t["j"] - 1]
     st["post"]["insts"] = st["post"]["insts"] + [{"t": p_type_bool(), "v": upj.E("const", v=upj.BV(True))}]
     mut.append(("Unchanged", t))
-    # (d) an accepted call that stored a different value -> Stored
+    # (d) an accepted call that stored a different (non-constant) value -> Stored, StoreInv
     t = copy.deepcopy(rng.choice([c for c in cands if c["call"] in ("set_init", "add_fluent")]))
     st = t["steps"][t["j"] - 1]
     if t["call"] == "set_init":
-        st["post"]["init"][-1]["v"] = upj.E("const", v=upj.NV(1))
+        st["post"]["init"][-1]["v"] = upj.E("fluent", name="g_bool")
     else:
-        st["post"]["fluents"][-1]["default"] = upj.E("const", v=upj.NV(1))
+        st["post"]["fluents"][-1]["default"] = upj.E("fluent", name="g_bool")
     mut.append(("Stored", t))
+    mut.append(("StoreInv", copy.deepcopy(t)))
+    # (e) the public initial_values view loses an entry -> InitialValues
+    t = copy.deepcopy(rng.choice([c for c in cands if c["call"] == "set_init"]))
+    st = t["steps"][t["j"] - 1]
+    st["post"]["ivals"] = st["post"]["ivals"][:-1]
+    mut.append(("InitialValues", t))
     for i, (_, t) in enumerate(mut):
         t["id"] = i
     _, fails, _ = judge(ctx, "selfcheck", [t for _, t in mut], expect_fail=True)
@@ -445,3 +447,35 @@ def selfcheck(ctx, traces, verdicts):
 
 def p_type_bool():
     return {"k": "bool", "lo": NONE, "hi": NONE, "name": ""}
+
+
+def selftest(ctx):
+    """./check C23 --selftest : binding demonstration on a fresh recording (corrupted records must be flagged)."""
+    decl, hist, _ = enumerate_cases(ctx, 1)
+    traces = [t for t in (replay_history(ctx, decl, h, i) for i, h in enumerate(hist)) if t is not None]
+    _, _, verdicts = judge(ctx, "selftest", traces, expect_fail=True)
+    selfcheck(ctx, traces, verdicts)
+    print("selftest: %d corrupted records, all flagged by ModelStoreTrace" % ctx.cov["selfcheck_corruptions_flagged"])
+    return 0
+
+
+def replay(ctx, data):
+    """./check C23 --replay FILE : re-run one reported history on the current tree and judge it again."""
+    d = data["data"]
+    if "history" not in d:
+        print("this replay file holds a design-level (T1) counterexample; see its 'trace'")
+        return 0
+    decl = d.get("decl")
+    if decl is None:
+        decl, _, _ = enumerate_cases(ctx, 1)
+    call, tt, j = d["case"]
+    t = replay_history(ctx, decl, {"call": call, "tt": tt, "j": j, "steps": d["history"]}, 0)
+    if t is None:
+        print("the history does not terminate")
+        return 1
+    for x in t["steps"]:
+        print(call_label(x["s"]), x["s"]["f"], describe(x["s"]["e"]), "->", "returned" if x["ok"] else "raised " + x["exc"])
+    _, fails, verdicts = judge(ctx, "replay", [t], expect_fail=True)
+    print("specification verdicts:", verdicts[0])
+    print("judge:", [p[2:] for p in fails] or "conforms")
+    return 1 if fails else 0
